@@ -197,9 +197,12 @@ def identity_case(algo_name: str, N: int, T: int, masked: bool, stateful: bool, 
     stored_lp = np.asarray(flat.log_probs, dtype=np.float64)
     atoms = {}
     if masked:
-        m = np.asarray(flat.action_masks)
         acts = np.asarray(flat.actions).astype(int)
-        atoms["RecordedMaskForbidsSomethingAndWasHonoured"] = bool((~m).any() and m[np.arange(len(acts)), acts].all())
+        if flat.action_masks is None:            # total: a rollout that lost its masks fails the clause, it does not raise
+            atoms["RecordedMaskForbidsSomethingAndWasHonoured"] = False
+        else:
+            m = np.asarray(flat.action_masks).astype(bool)
+            atoms["RecordedMaskForbidsSomethingAndWasHonoured"] = bool(m.shape == (len(acts), NA) and (~m).any() and m[np.arange(len(acts)), acts].all())
     if stateful:
         atoms["RolloutSpansSeveralPolicyStates"] = bool(len(set(np.asarray(flat.states.n).astype(int).tolist())) >= 2)
     # the stored reward of every row, recomputed from the row itself (the chain is deterministic and its observation carries the
